@@ -305,7 +305,7 @@ class OpGen:
                 sels.append("__typename")
         if self.use_fragments:
             app = self.applicable_fragments(t)
-            many = "frag.many" in self.dirty
+            many = "frag.many" in self.dirty or "shape.iface_hierarchy" in self.dirty
             if app and rng.random() < (0.85 if many else 0.5):
                 for name in rng.sample(app, rng.randrange(1, min(4 if many else 2, len(app)) + 1)):
                     sels.append("...%s%s" % (name, self.fragment_directive()))
@@ -335,8 +335,12 @@ class OpGen:
             # many fragments on few types: base-class chains and diamonds become likely
             comps = self.rng.sample(comps, min(2, len(comps)))
             count = self.rng.randrange(5, 10)
+        supers = [t for t in comps if isinstance(t, GraphQLInterfaceType) and any(
+            isinstance(o, GraphQLInterfaceType) and t in o.interfaces for o in self.schema.type_map.values())]
+        if "shape.iface_hierarchy" in self.dirty:
+            count = max(count, 3)
         for _ in range(count):
-            t = self.rng.choice(comps)
+            t = self.rng.choice(supers) if (supers and "shape.iface_hierarchy" in self.dirty and self.rng.random() < 0.6) else self.rng.choice(comps)
             name = "Frag%s%d" % (self.rng.choice(["Alpha", "beta", "Gamma_x", "URL"]), self.uid())
             self.in_fragment = True
             saved_vars = self.vars
